@@ -40,6 +40,7 @@ func c12(c *Ctx) {
 	c12Lossless(c)
 	c12WriteErr(c)
 	c12RSAPad(c)
+	c12EnumNames(c)
 	idZeroRule(c, "C12.idzero", func(rel string) bool { return rel == "keyset" || strings.HasPrefix(rel, "insecurecleartextkeyset") || strings.HasPrefix(rel, "internal/protoserialization") })
 }
 
